@@ -234,6 +234,7 @@ def _calls(py):
     add("transform.compute_state_difference(Series)", lambda: (T.compute_state_difference, (D()["traj"].iloc[3], D()["pva"]), {}))
     add("transform.smooth_state(20.0)", lambda: (T.smooth_state, (D()["traj"], 0.5), {}))
     add("transform.smooth_state(20.4)", lambda: (T.smooth_state, (D()["traj"], 0.51), {}))
+    add("transform.smooth_state(40)", lambda: (T.smooth_state, (D()["traj"], 1.0), {}))
     add("transform.mat_en_from_ll", lambda: (T.mat_en_from_ll, (np.array([10.0, -50.0]), np.array([20.0, 170.0])), {}))
     add("transform.mat_from_rph", lambda: (T.mat_from_rph, (rph2(),), {}))
     add("transform.mat_to_rph", lambda: (T.mat_to_rph, (mats(),), {}))
